@@ -114,7 +114,7 @@ def write_evidence(prop, tier, master, batch, n_violations, known_hits, wall, ex
             "hash_seeds": batch.HS,
             "runs_per_hash_seed": {str(k): v for k, v in sorted(st.hs.items())},
             "clock_seam_effective": batch.refs.clock_seam_effective,
-            "header_clock_positions": batch.refs.l2_mask,
+            "header_clock_positions_per_line": batch.refs.hdr_mask,
             "template_processes_started": batch.farm.template_starts,
             "components": COMPONENTS,
             "harness_errors": len(batch.harness_errors),
